@@ -199,7 +199,13 @@ def add_strfuns(reg):
     """A-STR: bytes.lower() and bytes.split() (no separator) as uninterpreted functions with the
     axioms the properties need."""
     low = SpecFun('lower', ['bytes'], 'bytes')
-    low.unfold = lambda s: [z3.Length(low.decl(s)) == z3.Length(s), low.decl(low.decl(s)) == low.decl(s)]
+    def low_unfold(s):
+        ax = [z3.Length(low.decl(s)) == z3.Length(s), low.decl(low.decl(s)) == low.decl(s)]
+        cs = const_str(s)
+        if cs is not None:      # a literal: its lower-case form is known
+            ax.append(low.decl(s) == z3.StringVal(cs.encode('latin-1').lower().decode('latin-1')))
+        return ax
+    low.unfold = low_unfold
     reg.specfuns['lower'] = low
     ws = SpecFun('wsplit', ['bytes'], ('list', 'bytes'))
     reg.specfuns['wsplit'] = ws
